@@ -34,6 +34,12 @@ properties; reference \\uN decoding), IfaceGen.tla (bounded universes + laws), I
    chars / non-ASCII) -- no accessor raises, text accessors return str; package documents with no namespace and
    with the OEB 1.x package namespace, dc elements in a <dc-metadata> wrapper (open finding KF-C04-01: a rejected
    trace of that domain counts as KNOWN only if TLC accepts it with the deviation Epub!DcMetadataWrapperIgnored on).
+2e. Round-6 families (IfaceGen modes members / structs): one-member zip / tar / tar.gz / 7z archives whose member is
+   stored under a plain, nested, dotted, unicode or ABSOLUTE name, read with every kind of archive path argument --
+   the member's metadata must be FromPath(<archive path>!/<member name>) (Iface!MemberPath, law Inv_Member); heading
+   structures of DOCX / ODT: every sequence of <= 4 (thorough 5) items over h1 h2 h3 paragraph empty-paragraph table
+   (trailing heading, trailing empty paragraphs, no level-1 heading, no preamble, ...) with and without pictures --
+   no accessor of any unit raises (quick: all structures of <= 3 items + a seeded 40 % of those with 4).
 3. code -> spec: a recorder calls the WHOLE accessor protocol on every result and every unit, image and table
    reachable from it and logs one event per call with the projected return (or the exception); the same is done
    for every repository fixture, for seeded mutants (truncation, byte flips, zeroed / 0xFF ranges, applied to
@@ -67,10 +73,10 @@ LAWS = ["Inv_NoneWhenNoPath", "Inv_Acceptable", "Inv_Suffix", "Inv_Idempotent", 
         "Inv_FormsInUniverse", "Inv_DecodeWellFormed", "Inv_DecodeInvertsToUnits", "Inv_ReportedUnchanged"]
 
 
-def _gen_cfg(mode, formats, max_dirs, max_val, full, dev=(), invs=LAWS, pdf_bytes=(173,)):
+def _gen_cfg(mode, formats, max_dirs, max_val, full, dev=(), invs=LAWS, pdf_bytes=(173,), max_struct=1):
     return ("SPECIFICATION Spec\nCONSTANTS\n"
             f' Mode = "{mode}"\n MaxDirs = {max_dirs}\n MaxVal = {max_val}\n MaxUnits = 3\n Full = {to_tla(bool(full))}\n'
-            f" Formats = {to_tla(set(formats))}\n Deviations = {to_tla(set(dev))}\n PdfBytes = {to_tla(set(pdf_bytes))}\n"
+            f" Formats = {to_tla(set(formats))}\n Deviations = {to_tla(set(dev))}\n PdfBytes = {to_tla(set(pdf_bytes))}\n MaxStruct = {max_struct}\n"
             + "".join(f"INVARIANT {i}\n" for i in invs))
 
 
@@ -229,9 +235,10 @@ def run(ctx):
         "cases": lambda: run_tlc("IfaceGen", _gen_cfg("cases", formats, 1, max_val, False), scratch=ctx.scratch,
                                  workers=4, dump=d_cases, timeout=900),
     }
-    d_extra = {m: ctx.scratch / f"{m}.dump" for m in ("heads", "opfs", "alts", "srcs", "lens", "pdfs", "ncrs", "degens", "names")}
+    d_extra = {m: ctx.scratch / f"{m}.dump" for m in ("heads", "opfs", "alts", "srcs", "lens", "pdfs", "ncrs", "degens", "names", "members", "structs")}
     for m in d_extra:
-        runs[m] = (lambda m=m: run_tlc("IfaceGen", _gen_cfg(m, formats, 1, 1, False, invs=[], pdf_bytes=range(127, 256)),
+        runs[m] = (lambda m=m: run_tlc("IfaceGen", _gen_cfg(m, formats, 1, 1, False, invs=["Inv_Member"] if m == "members" else [],
+                                                            pdf_bytes=range(127, 256), max_struct=5 if ctx.thorough else 4),
                                        scratch=ctx.scratch, workers=2, dump=d_extra[m]))
     runs["opfs"] = lambda: run_tlc("IfaceGen", _gen_cfg("opfs", formats, 1, 1, False, invs=["Inv_ReportedUnchanged"]),
                                    scratch=ctx.scratch, workers=2, dump=d_extra["opfs"])
@@ -259,7 +266,9 @@ def run(ctx):
     ev.tlc("IfaceGen ncrs: HTML numeric character references that denote no character", tr["ncrs"])
     ev.tlc("IfaceGen degens: degenerate-but-accepted inputs x path forms", tr["degens"])
     ev.tlc("IfaceGen names: naming attributes of unit containers", tr["names"])
-    for k in ("laws", "units", "cases", "opfs"):
+    ev.tlc("IfaceGen members: archive x member name form x archive path form; member-path law", tr["members"])
+    ev.tlc("IfaceGen structs: heading structures of DOCX / ODT, with and without pictures", tr["structs"])
+    for k in ("laws", "units", "cases", "opfs", "members"):
         if tr[k].violated:
             v.violation(what=f"IfaceGen ({k}): {tr[k].violated} violated on the specification", observed=tr[k].trace[:1])
     for mode, dev, inv in sens:
@@ -282,7 +291,8 @@ def run(ctx):
             f"{len(extra['heads'])} head layouts, {len(extra['opfs'])} OPF layouts, {len(extra['alts'])} picture alt-text cases, "
             f"{len(extra['srcs'])} picture sources, {len(extra['lens'])} geometry values, {len(extra['pdfs'])} tagged PDFs, "
             f"{len(extra['ncrs'])} character-reference cases, {len(extra['degens'])} degenerate inputs x path forms, "
-            f"{len(extra['names'])} container-name cases")
+            f"{len(extra['names'])} container-name cases, {len(extra['members'])} archive-member cases, "
+            f"{len(extra['structs'])} heading structures")
 
     # ------------------------------------------------------------------ 2. jobs
     if os.path.exists(L.NX_ROOT):
@@ -351,6 +361,35 @@ def run(ctx):
         else:
             add({"id": f"degen:{i}", "fmt": f, "data": data, "sp": sp}, kind="degen",
                 abstract={"input": c["input"], "form": c["form"], "path": c["path"]}, fmt=f)
+    # archive members: member path = <archive path>!/<member name>
+    for i, c in enumerate(extra["members"]):
+        r2 = random.Random(f"{ctx.seed}:member:{i}")
+        m, mname = L.spell_member(c["member"], r2)
+        try:
+            data = L.archive_bytes(c["arch"], mname)
+        except ImportError:
+            continue                                   # no 7z writer available: those cases are left out
+        sp = L.spell_path(c["path"], r2)
+        if sp["root"] == "none":
+            sp = dict(sp, root="dc")
+            parg = None
+        else:
+            sp["exts"] = list(L.ARCH_EXTS[c["arch"]])
+            parg = "use-sp"
+        member = {"k": "member", "archseg": ".".join([sp["stem"]] + sp["exts"]) + "!", **m}
+        job = {"id": f"member:{i}", "fmt": c["arch"], "data": data, "sp": sp, "member": member}
+        if parg is None:
+            job.update(parg=None, mat=False)
+        add(job, kind="member", abstract={"arch": c["arch"], "member": c["member"], "member_name": mname, "path": c["path"]},
+            fmt=c["arch"])
+    # heading structures of the flow formats
+    struct_rng = random.Random(ctx.seed + 7)
+    for i, c in enumerate(extra["structs"]):
+        x = c["x"]
+        if not ctx.thorough and len(x["items"]) >= 4 and struct_rng.random() >= 0.4:
+            continue                  # quick: every structure of <= 3 items, a seeded 40 % of those with 4
+        add({"id": f"struct:{i}", "fmt": x["fmt"], "doc": L.struct_doc(x["fmt"], x["items"], x["pics"], ctx.seed),
+             "sp": dict(none_sp0), "parg": None, "mat": False}, kind="struct", abstract=x, fmt=x["fmt"])
     for i, c in enumerate(extra["names"]):
         x = c["x"]
         add({"id": f"name:{i}", "fmt": x["fmt"], "data": L.name_variant(base[x["fmt"]], x["fmt"], x["which"], x["name"]),
@@ -450,7 +489,7 @@ def run(ctx):
             traces.append({"id": f"{j['id']}@{k}", "hdr": hdr, "ev": evs[k:k + L.MAX_EVENTS_PER_TRACE]})
             owner.append((j, r, k))
     ctx.log("extraction outcomes: " + ", ".join(f"{k[0]}/{k[1]}={n}" for k, n in sorted(stat.items())))
-    gen_kinds = ("path", "case", "units", "imgdamage", "head", "opf", "alt", "src", "len", "pdf", "ncr", "degen", "name")
+    gen_kinds = ("path", "case", "units", "imgdamage", "head", "opf", "alt", "src", "len", "pdf", "ncr", "degen", "name", "member", "struct")
     gen_total = sum(n for (k, s), n in stat.items() if k in gen_kinds)
     gen_ok = sum(n for (k, s), n in stat.items() if k in gen_kinds and s == "ok")
     if gen_ok < 0.9 * gen_total:
@@ -503,7 +542,7 @@ def run(ctx):
         if r["status"] == "ok" and m["kind"] != "fixture":
             ev.nontrivial((m["kind"], json.dumps(m.get("abstract"), sort_keys=True), m.get("file"), r.get("msg")))
     shown = 0
-    for want in ("path", "case", "units", "head", "opf", "alt", "src", "len", "pdf", "ncr", "degen", "name", "imgdamage", "fixture", "mutant"):
+    for want in ("path", "case", "units", "head", "opf", "alt", "src", "len", "pdf", "ncr", "degen", "name", "member", "struct", "imgdamage", "fixture", "mutant"):
         for j in jobs:
             m, r = meta[j["id"]], results[j["id"]]
             if m["kind"] == want and r["status"] == "ok" and r["events"]:
@@ -523,6 +562,7 @@ def run(ctx):
                       "opf_layout_cases": len(extra["opfs"]), "picture_alt_cases": len(extra["alts"]), "picture_source_cases": len(extra["srcs"]),
                       "geometry_cases": len(extra["lens"]), "tagged_pdf_cases": len(extra["pdfs"]), "ncr_cases": len(extra["ncrs"]),
                       "degenerate_cases": len(extra["degens"]), "container_name_cases": len(extra["names"]),
+                      "archive_member_cases": len(extra["members"]), "heading_structures": len(extra["structs"]),
                       "fixtures": len(fixtures), "mutants_tried": sum(n for (k, s), n in stat.items() if k == "mutant"),
                       "mutants_accepted": acc, "accessor_events_validated": n_events,
                       "skipped_timeouts": sum(n for (k, s), n in stat.items() if s == "timeout"), "formats": formats})
